@@ -29,10 +29,18 @@ class TokVal:
 
 
 class ScanEval(SymEval):
-    def __init__(self, model, func, sink, depth=0):
+    def __init__(self, model, func, sink, depth=0, idxlog=None):
         super().__init__(model, func)
         self.sink = sink        # list of (TokVal | None, state, return node, func)
         self.depth = depth
+        self.idxlog = idxlog if idxlog is not None else []   # every evaluation of a subscript x[i]
+
+    def ev_Subscript(self, e, st):
+        v = super().ev_Subscript(e, st)
+        rec = self.indexes.get(id(e))
+        if rec is not None and not isinstance(e.slice, ast.Slice):
+            self.idxlog.append(rec + (self.func,))
+        return v
 
     def ev_Attribute(self, e, st):
         return super().ev_Attribute(e, st)
@@ -80,13 +88,14 @@ class ScanEval(SymEval):
                 args = [self.ev(x, st) for x in e.args]
                 allret = []
                 for callee in tg:
-                    sub = ScanEval(self.model, callee, self.sink, self.depth + 1)
+                    sub = ScanEval(self.model, callee, self.sink, self.depth + 1, self.idxlog)
                     cst = st.copy()
                     params = callee.params[1:] if callee.cls is not None and callee.outer is None else callee.params
                     cst.vars = {k: v for k, v in cst.vars.items() if '.' in k}
                     for p, v in zip(params, args):
                         cst.vars[p] = v
                     sub.run(normalize.sunk_body(callee), cst)
+                    self.searches.extend(sub.searches)
                     allret += sub.ret_states
                 return ('tail', allret)
         if not r and isinstance(e.func, ast.Name) and (self.model.resolve_symbol(e._mod, e._fn, e.func) is None) \
@@ -103,7 +112,7 @@ class ScanEval(SymEval):
                 return Obj(fresh('call'))     # recursion: not followed (imprecise, undecided)
             args = [self.ev(x, st) for x in e.args]
             is_tail = isinstance(e._parent, ast.Return)
-            sub = ScanEval(self.model, callee, self.sink if is_tail else [], self.depth + 1)
+            sub = ScanEval(self.model, callee, self.sink if is_tail else [], self.depth + 1, self.idxlog)
             cst = st.copy()
             params = callee.params[1:] if callee.cls is not None and callee.outer is None else callee.params
             # closures see the variables of the enclosing call
@@ -113,6 +122,7 @@ class ScanEval(SymEval):
             for p, v in zip(params, args):
                 cst.vars[p] = v
             sub.run(normalize.sunk_body(callee), cst)
+            self.searches.extend(sub.searches)
             if not is_tail:
                 # the call's tokens are not returned by next_token; its effect on the scan
                 # position is what all its exits agree on (else unknown)
@@ -392,4 +402,94 @@ def sc5(model):
                witness='an ordinary % comment line directly before %%% LT-SKIP-BEGIN')
     else:
         r.ok(sc.node, 'scan_comment handles one comment line', nontrivial=True)
+    return r
+
+
+# ----------------------------------------------------------------------------- IX19
+def ix19(model):
+    r = RuleResult('IX19', 'scanner: every character access latex[i] that next_token and the methods it calls '
+                   'evaluate outside a search generator has 0 <= i < len(latex) on its path (facts: the scan '
+                   'loop calls next_token with pos < max_pos = len(latex); short-circuit tests; bounds of '
+                   'next()/find() results)', floor=3)
+    nt = model.func('scanner.Scanner.next_token')
+    sink = []
+    ev = ScanEval(model, nt, sink)
+    st = State()
+    S = Aff.atom(('int', 'S'))
+    M = Aff.atom(('len', 'latex'))
+    st.vars['self.pos'] = Int(S)
+    st.vars['self.max_pos'] = Int(M)
+    st.vars['self.latex'] = Seq(M, 'str')
+    st.facts = st.facts.add(S, M - S - 1)
+    ev.run(normalize.sunk_body(nt), st)
+    seen = {}
+    for node, L, ia, ist, fn in ev.idxlog:
+        if not ist.facts.prove_eq(L, M):
+            continue        # not an access to the scanned text
+        ok = ist.facts.prove_ge0(ia) and ist.facts.prove_ge0(L - ia - 1)
+        if not ok and not _imprecise(ia):
+            # the bounds the analysis has for the index are themselves built from values it lost (joins, loops)
+            atoms = set(ia.t)
+            if any(atoms & set(fct.t) and _imprecise(fct) for fct in ist.facts.facts):
+                ok = None
+        prev = seen.get(id(node))
+        if prev is None:
+            seen[id(node)] = [node, ok, ia, fn]
+        elif ok is False or (ok is None and prev[1] is True):
+            prev[1] = ok
+            prev[2] = ia
+    for node, ok, ia, fn in seen.values():
+        if ok:
+            r.ok(node, 'index %r inside the text on every path' % ia, nontrivial=True)
+        elif ok is None or _imprecise(ia):
+            r.undec(node, 'index %r contains values the analysis could not bound' % ia)
+        else:
+            r.fail(node, '%s: the index %r is not provably inside the scanned text on a path that reaches '
+                   'this access: IndexError when the text ends here' % (fn.qname, ia),
+                   witness='a text that ends directly behind this construct (truncated document)')
+    return r
+
+
+# ----------------------------------------------------------------------------- VB1
+def vb1(model):
+    r = RuleResult('VB1', 'a \\verb argument ends at the first occurrence of its delimiter behind the opening one: '
+                   'the search whose result ends the text of the VerbatimToken starts exactly where that text '
+                   'starts (one character later, an empty argument \\verb|| runs on to the next delimiter)', floor=1)
+    nt = model.func('scanner.Scanner.next_token')
+    sink = []
+    ev = ScanEval(model, nt, sink)
+    st = State()
+    S = Aff.atom(('int', 'S'))
+    M = Aff.atom(('len', 'latex'))
+    st.vars['self.pos'] = Int(S)
+    st.vars['self.max_pos'] = Int(M)
+    st.vars['self.latex'] = Seq(M, 'str')
+    st.facts = st.facts.add(S, M - S - 1)
+    ev.run(normalize.sunk_body(nt), st)
+    seen = set()
+    for v, rst, node, fn in sink:
+        if not (isinstance(v, TokVal) and v.cls is not None and getattr(v.cls, 'name', '') == 'VerbatimToken'
+                and fn.name == 'scan_verb' and not v.pinned):
+            continue
+        desc = getattr(v.txt, 'desc', None)
+        if not (desc and desc[0] == 'slice'):
+            r.undec(v.call, 'text of the \\verb token is not a slice of the scanned text')
+            r.instances += 1
+            continue
+        lo, hi = desc[1], desc[2]
+        recs = [(e, slo, shi, d, a, sst) for (e, slo, shi, d, a, sst) in ev.searches if a.t.keys() & hi.t.keys()]
+        if not recs:
+            r.undec(v.call, 'end of the \\verb text is not the result of a search the analysis follows')
+            r.instances += 1
+            continue
+        key = (id(v.call), tuple(sorted(repr(x[4]) for x in recs)))
+        if key in seen:
+            continue
+        seen.add(key)
+        e, slo, shi, d, a, sst = recs[-1]
+        if rst.facts.prove_eq(slo, lo):
+            r.ok(v.call, 'search for the closing delimiter starts at the start %r of the text' % lo, nontrivial=True)
+        else:
+            r.fail(e, 'the search for the closing delimiter starts at %r, the text of the \\verb argument at %r: '
+                   'a delimiter in between is not seen' % (slo, lo), witness='\\verb|| and \\input{x} |')
     return r
